@@ -153,7 +153,8 @@ func combinePorts(as string, bs string) (string, error) {
 	bBitset := parsePorts(bs)
 
 	aBitset.InPlaceIntersection(bBitset)
-	if aBitset.Len() == 0 {
+	if aBitset.None() {
+		// No port in common.  (Len() is the capacity of the set, not the number of set bits.)
 		return "", policysets.ErrRuleIsNoOp
 	}
 
@@ -167,7 +168,8 @@ func combinePorts(as string, bs string) (string, error) {
 
 		afterEndOfRange, valid := aBitset.NextClear(startOfRange + 1)
 		if !valid {
-			panic("bitset said no end of range")
+			// No clear bit after the start of the range: the range runs to the end of the set.
+			afterEndOfRange = aBitset.Len()
 		}
 		endOfRange := afterEndOfRange - 1
 
@@ -184,7 +186,7 @@ func combinePorts(as string, bs string) (string, error) {
 }
 
 func parsePorts(portsStr string) *bitset.BitSet {
-	setOfPorts := bitset.New(2 ^ 16 + 1)
+	setOfPorts := bitset.New(1<<16 + 1)
 	for p := range strings.SplitSeq(portsStr, ",") {
 		if strings.Contains(p, "-") {
 			// Range
